@@ -377,8 +377,11 @@ class C17(Prop):
                 break
             v = drv.ask('m45', sx.dump([ecfg, engine_k2b.enc_state(prev, kcfg, nxt, now, cyc), engine_k2b.draws_of(f['cev'])]))
             o = engine_k2b.parse(v[1]) if v[0] == 'M' else None
-            if not isinstance(o, list) or len(o) != 3:
+            if not isinstance(o, list) or len(o) != 5:
                 return {'stats': st, 'mismatch': {'frame': k + 1, 'what': 'AllRun2.run_calls2 could not read the snapshot', 'got': str(v)[:120]}}
+            if o[3] != 1:
+                return {'stats': st, 'mismatch': {'frame': k + 1, 'what': 'TrackerInc2b.TInvS (an unblocked customer has previous_class = customer_class) fails on a real snapshot inside scope_nb', 'label': f['label']}}
+            st['stage2_snapshots_in_scope_nb_satisfying_TInvS'] = st.get('stage2_snapshots_in_scope_nb_satisfying_TInvS', 0) + o[4]
             real = []
             for e in f['cev']:
                 if e[0] == 'TrkAcc':
